@@ -665,7 +665,9 @@ class QueryGarbageCollector(BaseGarbageCollector):
             WHERE 
                 (kind >= 20000 and kind < 30000)
             OR
-                (tags.name = 'expiration' AND tags.value < '%NOW%')
+                (tags.name = 'expiration' AND
+                    CASE WHEN tags.value != '' AND length(tags.value) < 19 AND ltrim(tags.value, '0123456789') = ''
+                    THEN CAST(tags.value AS BIGINT) < %NOW% ELSE false END)
         )
     """
 
